@@ -449,16 +449,26 @@ fn c11_deploy_interchain_token() {
         kani::cover!(supply > 0 && minter.is_none(), "COVER c11 deploy supply only");
         kani::cover!(supply <= 0 && minter.is_some(), "COVER c11 deploy minter only");
         kani::cover!(supply <= 0 && minter.is_none(), "COVER c11 deploy neither");
-        // --- the service must stay able to mint for inbound transfers
-        let mut revoked = false;
+        // --- the service must stay able to mint for inbound transfers: it is a minter from construction (it
+        // is the token's owner); what matters is the net effect of the role calls it makes on the new token
+        let mut its_minter = true;
         let mut i = 0;
         while i < shim::LCAP {
-            if i < shim::n_calls() && shim::call_is(i, &token, "remove_minter", &(me(&env),)) {
-                revoked = true;
+            if i < shim::n_calls() {
+                if shim::call_is(i, &token, "remove_minter", &(me(&env),)) {
+                    its_minter = false;
+                }
+                if shim::call_is(i, &token, "add_minter", &(me(&env),)) {
+                    its_minter = true;
+                }
             }
             i += 1;
         }
-        assert!(!revoked, "OBL C11.its_remains_minter: the service never revokes its own minting right on a token it deployed");
+        if minter == Some(me(&env)) {
+            assert!(its_minter, "OBL C11.its_remains_minter_when_designated: when the service itself is the designated minter it still holds the minting right at the end");
+        } else {
+            assert!(its_minter, "OBL C11.its_remains_minter: the service never ends up without its minting right on a token it deployed");
+        }
         assert!(
             match (&minter, supply > 0) {
                 (Some(m), true) => shim::call_is(shim::n_calls() - 1, &token, "add_minter", &(m.clone(),)),
